@@ -611,30 +611,51 @@ def run(ck):
             ck.ob('FMT-layout', where, len(vw) == 1 and next(iter(vw)) == pos_w and len(fields) == 3,
                   'GRO velocity fields have the coordinate field width {} (reader assumes one width for both)'.format(pos_w),
                   key='FMT-layout|gro|vel-width')
-    for st, cond, env in stmts_with_env(gr, lambda s: isinstance(s, (ast.AugAssign, ast.Assign)) and
-                                        any(isinstance(t, ast.Name) and t.id == 'start' for t in
-                                            ([s.target] if isinstance(s, ast.AugAssign) else s.targets))
-                                        and loops_around(gro, s, gr),
-                                        stmts=[l for l in walk_local(gr) if isinstance(l, ast.For) and 'field_widths' in u(l.iter)][0].body):
-        ck.ob('FMT-reader-accumulate', gro.loc(st), flow.valid(cond) and 'width' in u(st),
-              'GRO reader column counter advances for every field (`{}`)'.format(u(st)), key='FMT-reader-accumulate|read_gro')
+    # the column of every field is the sum of the widths before it, skipped (negative) fields included: the statements that turn the width table into
+    # slices are interpreted on a sample table
+    from .. import interp as _interp
+    blk = None
+    for node_ in ast.walk(gr):
+        for fld_ in ('body', 'orelse', 'finalbody'):
+            sub_ = getattr(node_, fld_, None)
+            if isinstance(sub_, list) and any(isinstance(s_, ast.Assign) and any(isinstance(t_, ast.Name) and t_.id == 'slices' for t_ in s_.targets) for s_ in sub_):
+                blk = sub_
+    okacc, detail = blk is not None, 'the construction of `slices` was not found'
+    if okacc:
+        first = next(i for i, s_ in enumerate(blk) if any(isinstance(n_, ast.Name) and n_.id in ('slices', 'start', 'field_widths') for n_ in ast.walk(s_)) and
+                     not any(isinstance(c_, ast.Call) and call_attr(c_) == 'extend' for c_ in ast.walk(s_)))
+        last = max(i for i, s_ in enumerate(blk) if any(isinstance(n_, ast.Name) and n_.id == 'slices' and (isinstance(n_.ctx, ast.Store) or True) for n_ in ast.walk(s_))
+                   and not any(isinstance(c_, ast.Call) and call_name(c_) == 'zip' and 'field_names' in u(c_) for c_ in ast.walk(s_)))
+        import itertools as _it
+        env_ = {'field_widths': [5, 5, -2, 8, 8, -3, 4], 'slice': lambda a_, b_: ('S', a_, b_), 'accumulate': lambda xs: list(_it.accumulate(xs)),
+                'itertools.accumulate': lambda xs: list(_it.accumulate(xs)), 'map': lambda f_, xs: [f_(x_) for x_ in xs]}
+        try:
+            _interp.run_stmts(blk[first:last + 1], env_)
+            got = list(env_.get('slices') or [])
+            okacc = got == [('S', 0, 5), ('S', 5, 10), ('S', 12, 20), ('S', 20, 28), ('S', 31, 35)]
+            detail = 'widths [5, 5, -2, 8, 8, -3, 4] give {}'.format(got)
+        except (_interp.Unsupported, _interp.Returned, KeyError, TypeError) as err:
+            okacc, detail = False, 'outside the interpretable fragment: {}'.format(err)
+    ck.ob('FMT-reader-accumulate', gro.loc(gr), okacc, 'GRO reader: every field starts where the widths before it (skipped fields included) end -- ' + detail,
+          key='FMT-reader-accumulate|read_gro')
     truncation_obligations(ck, ALL_FIELDS)
     # the default helper: only None is replaced
     gnn = pdb.func('get_not_none')
     ck.analysed(pdb, gnn)
-    rets = stmts_with_env(gnn, lambda s_: isinstance(s_, ast.Return))
-    ok = len(rets) == 1 and u(rets[0][0].value) == 'value'
-    vd = stmts_with_env(gnn, lambda s_: isinstance(s_, ast.Assign) and u(s_.targets[0]) == 'value')
+    # interpreted on every kind of stored value: only an absent attribute or a stored None gives the default
+    from .. import interp
+    ok = len(gnn.args.args) == 3
     if ok:
-        first = [d for d in vd if u(d[0].value) == '{}.get({})'.format(gnn.args.args[0].arg, gnn.args.args[1].arg) and flow.valid(d[1])]
-        dflt = [d for d in vd if u(d[0].value) == gnn.args.args[2].arg]
-        ok = len(first) == 1 and len(dflt) == 1 and len(vd) == 2
-        if ok:
-            names = {}
-            for k in flow.atoms_of(dflt[0][1]):
-                if k[0] == 'Is' and 'None' in k[1:]:
-                    names[k] = 'ISNONE'
-            ok = flow.equivalent(flow.rename(dflt[0][1], names), flow.parse_formula('ISNONE'))[0] and len(names) == len(flow.atoms_of(dflt[0][1]))
+        n_, a_, d_ = [x.arg for x in gnn.args.args]
+        try:
+            for stored in ('absent', None, 0, 0.0, '', 'X', 7, False, [], ()):
+                node_ = {} if stored == 'absent' and isinstance(stored, str) else {'k': stored}
+                got = interp.call(gnn.body, {n_: node_, a_: 'k', d_: 'DEFAULT'})
+                want = 'DEFAULT' if (isinstance(stored, str) and stored == 'absent') or stored is None else stored
+                if got != want or type(got) is not type(want):
+                    ok = False
+        except (interp.Unsupported, KeyError, TypeError):
+            ok = False
     ck.ob('DT-default', pdb.loc(gnn), ok, 'a written attribute is replaced by its default only when it is absent or None -- 0 and empty strings are written as they are', key='DT-default|get_not_none')
     from . import shared
     shared.truthy_zero(ck, [PDB, GRO, 'vermouth/truncating_formatter.py'])
@@ -665,8 +686,13 @@ def run(ck):
     ok = len(pl) == 1
     if ok:
         adds = stmts_with_env(dsc, lambda s_: isinstance(s_, ast.Expr) and call_attr(s_.value) == 'add_edge', stmts=pl[0].body)
-        ok = len(adds) == 1 and flow.valid(adds[0][1]) and [u(a) for a in adds[0][0].value.args[:2]] == ['atomidx0', 'atomidx']
-        skips = [n for n in pl[0].body if isinstance(n, (ast.If,)) and any(isinstance(x, (ast.Continue, ast.Break)) for x in ast.walk(n))]
+        # the only thing that may stand between a listed partner and its bond is "that atom was not read" (a search that found nothing: a for/else, or a
+        # `<found> is None` test) -- never a comparison of the two serials
+        def only_not_found(formula):
+            return all(k[0] == 'Is' and 'None' in k[1:] for k in flow.atoms_of(formula))
+        ok = len(adds) == 1 and (flow.valid(adds[0][1]) or only_not_found(adds[0][1])) and [u(a) for a in adds[0][0].value.args[:2]] == ['atomidx0', 'atomidx']
+        skips = [n for n in pl[0].body if isinstance(n, (ast.If,)) and any(isinstance(x, (ast.Continue, ast.Break)) for x in ast.walk(n))
+                 and not only_not_found(flow.to_formula(n.test))]
         ok = ok and not skips
     ck.ob('PROV-conect-reader', pdbm.loc(dsc), ok, 'every atom listed after the first on a CONECT record is bonded to the first (only atoms that were not read are skipped); '
           'the serial order of the two plays no part', key='PROV-conect-reader|every-partner')
